@@ -40,7 +40,7 @@ UNITS = [{
     'uses_types': ['VCell', 'Error'],
     'prelude': PRELUDE,
     'fns': {
-        'impl Stack::new': {'props': S5 + ['C06'], 'ensures': [(S5, 'r.wf() && r.sp_spec() == 0 && r.cells().len() == 256')]},
+        'impl Stack::new': {'props': S5 + ['C06'], 'ensures': [(S5, 'r.wf() && r.sp_spec() == 0')]},  # the initial capacity (256 today) is incidental: no property depends on it
         'impl Stack::clear': {
             'props': ['C12', 'C07', 'C05', 'C06'],
             'ensures': [
@@ -55,7 +55,7 @@ UNITS = [{
         'impl Stack::grow': {
             'props': S5 + ['C06'],
             'requires': ['old(self).wf()', 'old(self).can_grow()'],
-            'ensures': [(S5, 'final(self).wf() && final(self).sp_spec() == old(self).sp_spec() && final(self).cells().len() == 2 * old(self).cells().len()'),
+            'ensures': [(S5, 'final(self).wf() && final(self).sp_spec() == old(self).sp_spec() && final(self).cells().len() > old(self).cells().len()'),  # it doubles today; no property depends on the factor
                         (S5, 'final(self).cells().subrange(0, old(self).cells().len() as int) == old(self).cells()')],
         },
         # accessors used by the instruction loop (run_one): exact results, `get_mut` changes exactly the addressed slot
